@@ -97,7 +97,20 @@ func Pack(x Packable) string {
 	CheckStringSize("Pack", size)
 	buf := pack.NewEncoder(size)
 	hash2 := uint64(17)
-	x.Pack(&hash2, buf)
+	func() {
+		defer func() {
+			if e := recover(); e != nil {
+				// buf overflows if x grew after PackSize
+				hash3 := uint64(17)
+				if isRuntimeError(e) &&
+					(x.PackSize(&hash3) != size || hash3 != hash1) {
+					panic("object modified during packing")
+				}
+				panic(e)
+			}
+		}()
+		x.Pack(&hash2, buf)
+	}()
 	if hash1 != hash2 || len(buf.Buffer()) != size {
 		panic("object modified during packing")
 	}
